@@ -13,12 +13,20 @@
 //! obs   := `D<0|1> tok tok …`; tok := `<res>/<get>/<T0>/<T1>/<T2>/<all_facts>/<all_handles>/<contents>`
 //!   res  := `i<h>` | `u<0|1>` | `x<0|1>` | `z` | `F<fired names>~<rule>@<handle>@<f=v,…>~…`
 //!   D1 = at every moment at most one live fact per type (then nothing depends on HashMap iteration order).
+//!   values: `i<int>` | `b<0|1>` | `s<k>` | `h<2x>` (the float x) | `n` (FactValue::Null)
+//!
+//! Loader path: every rule of the case is also rendered as GRL text and loaded with the real `GrlReteLoader::load_from_string`
+//! into a SECOND IncrementalEngine, which is driven through the same calls.  Its closures are the loader's own (no recorder), so
+//! its observation carries the fired names without the recorder log: `… G tok tok …` (tok := `<res>/<views>` as above, res of a
+//! fire_all = `F<fired names>`), `… G=` when it is token for token the first engine's observation with the logs removed, or
+//! `… G!<hex error>` when the loader rejected the text.  The GRL closures print to stdout (`retract`), so fd 1 points at
+//! /dev/null while cases run and the observations go to a duplicate of the original fd 1 (as in c02.rs).
 use rre_harness::*;
 use rust_rule_engine::rete::facts::{FactValue, TypedFacts};
 use rust_rule_engine::rete::network::{ReteUlNode, TypedReteUlRule};
 use rust_rule_engine::rete::propagation::IncrementalEngine;
 use rust_rule_engine::rete::working_memory::FactHandle;
-use rust_rule_engine::rete::{ActionResult, AlphaNode};
+use rust_rule_engine::rete::{ActionResult, AlphaNode, GrlReteLoader};
 use std::sync::{Arc, Mutex};
 
 const NTYPES: u64 = 3;
@@ -30,6 +38,7 @@ fn parse_val(s: &str) -> Option<FactValue> {
         b's' => Some(FactValue::String(s.to_string())),
         // h<2x>: the float x, an exact half-integer (no rounding on either side of the wire)
         b'h' => s[1..].parse::<i64>().ok().map(|t| FactValue::Float(t as f64 / 2.0)),
+        b'n' if s == "n" => Some(FactValue::Null),
         _ => None,
     }
 }
@@ -39,6 +48,7 @@ fn show_val(v: &FactValue) -> String {
         FactValue::Boolean(b) => format!("b{}", if *b { 1 } else { 0 }),
         FactValue::String(s) => s.clone(),
         FactValue::Float(f) if (f * 2.0).fract() == 0.0 && f.abs() < 1e15 => format!("h{}", (f * 2.0) as i64),
+        FactValue::Null => "n".into(),
         _ => "?".into(),
     }
 }
@@ -70,6 +80,7 @@ fn parse_node(s: &str) -> Option<(ReteUlNode, &str)> {
         b'b' => (if &p[4][1..] == "1" { "true" } else { "false" }).to_string(),
         b's' => p[4].to_string(),
         b'h' => format!("{:?}", p[4][1..].parse::<i64>().ok()? as f64 / 2.0), // "15.0", "0.5": parsed back as Float
+        b'n' if p[4] == "n" => "null".to_string(),
         b'v' => { let (t, f) = p[4][1..].split_once('_')?; format!("T{}.f{}", t, f) }
         _ => return None,
     };
@@ -139,10 +150,98 @@ fn views(e: &IncrementalEngine, max_h: u64, d1: &mut bool) -> String {
     parts.join("/")
 }
 
+// ------------------------------------------------------------------------------------------------ GRL rendering
+fn grl_val(v: &str) -> Option<String> {
+    Some(match v.as_bytes().first()? {
+        b'i' => v[1..].parse::<i64>().ok()?.to_string(),
+        b'b' => (if &v[1..] == "1" { "true" } else { "false" }).to_string(),
+        b's' => format!("\"{}\"", v),
+        b'h' => format!("{:?}", v[1..].parse::<i64>().ok()? as f64 / 2.0),
+        b'n' if v == "n" => "null".to_string(),
+        _ => return None,
+    })
+}
+/// the when-clause text of a node: every compound is parenthesised, a negation is written `!(…)`
+fn grl_node(s: &str) -> Option<(String, &str)> {
+    for (pre, op) in [("&(", "&&"), ("+(", "||")] {
+        if let Some(r) = s.strip_prefix(pre) {
+            let (l, r) = grl_node(r)?;
+            let (rr, r) = grl_node(r.strip_prefix(',')?)?;
+            return Some((format!("({} {} {})", l, op, rr), r.strip_prefix(')')?));
+        }
+    }
+    if let Some(r) = s.strip_prefix("!(") {
+        let (n, r) = grl_node(r)?;
+        return Some((format!("!({})", n), r.strip_prefix(')')?));
+    }
+    let end = s.find([',', ')']).unwrap_or(s.len());
+    let p: Vec<&str> = s[..end].split('.').collect();
+    if p.len() != 5 || p[0] != "A" { return None; }
+    let op = match p[3] { "eq" => "==", "ne" => "!=", "lt" => "<", "le" => "<=", "gt" => ">", "ge" => ">=", _ => return None };
+    let rhs = if let Some(v) = p[4].strip_prefix('v') { let (t, f) = v.split_once('_')?; format!("T{}.f{}", t, f) } else { grl_val(p[4])? };
+    Some((format!("T{}.f{} {} {}", p[1], p[2], op, rhs), &s[end..]))
+}
+/// `rule "R<i>" salience <p> [no-loop] { when <node> then <T.f = literal;>* [retract(T);] }` (`Log("x");` for an empty action list)
+fn grl_rule(i: usize, s: &str) -> Option<String> {
+    let p: Vec<&str> = s.splitn(4, ':').collect();
+    if p.len() != 4 { return None; }
+    let (node_s, act_s) = p[3].rsplit_once(':')?;
+    let (cond, rest) = grl_node(node_s)?;
+    if !rest.is_empty() { return None; }
+    let mut acts = Vec::new();
+    if act_s != "-" {
+        for a in act_s.split(';') {
+            if a == "R" { acts.push(format!("retract(T{});", p[0])); continue; }
+            let (f, v) = a.split_once('=')?;
+            acts.push(format!("T{}.f{} = {};", p[0], f, grl_val(v)?));
+        }
+    }
+    if acts.is_empty() { acts.push("Log(\"x\");".to_string()); }
+    Some(format!("rule \"R{}\" salience {}{} {{\n    when\n        {}\n    then\n        {}\n}}\n", i, p[1].parse::<i32>().ok()?,
+        if p[2] == "1" { " no-loop" } else { "" }, cond, acts.join("\n        ")))
+}
+
+// ------------------------------------------------------------------------------------------------ execution
+/// drives one engine through the calls of the case; `log` = the recorder of the directly built rules (none for GRL-loaded rules)
+fn run_ops(e: &mut IncrementalEngine, ops: &[&str], log: Option<&Arc<Mutex<Vec<String>>>>) -> Option<(Vec<String>, bool)> {
+    let mut toks = Vec::new();
+    let mut max_h = 0u64;
+    let mut d1 = true;
+    for op in ops {
+        let res = match op.as_bytes()[0] {
+            b'I' => {
+                let (ty, data) = op[1..].split_once(':')?;
+                let h = e.insert(format!("T{}", ty), parse_data(data)?).id();
+                max_h = max_h.max(h);
+                format!("i{}", h)
+            }
+            b'U' => {
+                let (h, data) = op[1..].split_once(':')?;
+                format!("u{}", if e.update(FactHandle::new(h.parse::<u64>().ok()?), parse_data(data)?).is_ok() { 1 } else { 0 })
+            }
+            b'X' => format!("x{}", if e.retract(FactHandle::new(op[1..].parse::<u64>().ok()?)).is_ok() { 1 } else { 0 }),
+            b'F' => {
+                if let Some(lg) = log { lg.lock().unwrap().clear(); }
+                let fired = e.fire_all();
+                let names: Vec<String> = fired.iter().map(|n| n.trim_start_matches('R').to_string()).collect();
+                let mut s = format!("F{}", if names.is_empty() { "-".to_string() } else { names.join(",") });
+                if let Some(lg) = log { for r in lg.lock().unwrap().iter() { s.push('~'); s.push_str(r); } }
+                s
+            }
+            b'Z' => { e.reset(); "z".into() }
+            _ => return None,
+        };
+        let v = views(e, max_h, &mut d1);
+        toks.push(format!("{}/{}", res, v));
+    }
+    Some((toks, d1))
+}
+
 fn exec(case: &str) -> String {
     let t: Vec<&str> = case.split_whitespace().collect();
     if t.is_empty() { return "bad-case".into(); }
     let Some(rules) = t[0].split('/').map(parse_rule).collect::<Option<Vec<_>>>() else { return "bad-case".into() };
+    let Some(grl) = t[0].split('/').enumerate().map(|(i, r)| grl_rule(i, r)).collect::<Option<Vec<_>>>() else { return "bad-case".into() };
     let log: Arc<Mutex<Vec<String>>> = Arc::new(Mutex::new(Vec::new()));
     let mut e = IncrementalEngine::new();
     for (i, r) in rules.into_iter().enumerate() {
@@ -177,52 +276,98 @@ fn exec(case: &str) -> String {
             vec![format!("T{}", ty)],
         );
     }
-    let mut toks = Vec::new();
-    let mut max_h = 0u64;
-    let mut d1 = true;
-    for op in &t[1..] {
-        let res = match op.as_bytes()[0] {
-            b'I' => {
-                let Some((ty, data)) = op[1..].split_once(':') else { return "bad-case".into() };
-                let Some(d) = parse_data(data) else { return "bad-case".into() };
-                let h = e.insert(format!("T{}", ty), d).id();
-                max_h = max_h.max(h);
-                format!("i{}", h)
-            }
-            b'U' => {
-                let Some((h, data)) = op[1..].split_once(':') else { return "bad-case".into() };
-                let (Ok(h), Some(d)) = (h.parse::<u64>(), parse_data(data)) else { return "bad-case".into() };
-                format!("u{}", if e.update(FactHandle::new(h), d).is_ok() { 1 } else { 0 })
-            }
-            b'X' => {
-                let Ok(h) = op[1..].parse::<u64>() else { return "bad-case".into() };
-                format!("x{}", if e.retract(FactHandle::new(h)).is_ok() { 1 } else { 0 })
-            }
-            b'F' => {
-                log.lock().unwrap().clear();
-                let fired = e.fire_all();
-                let names: Vec<String> = fired.iter().map(|n| n.trim_start_matches('R').to_string()).collect();
-                let mut s = format!("F{}", if names.is_empty() { "-".to_string() } else { names.join(",") });
-                for r in log.lock().unwrap().iter() { s.push('~'); s.push_str(r); }
-                s
-            }
-            b'Z' => { e.reset(); "z".into() }
-            _ => return "bad-case".into(),
-        };
-        let v = views(&e, max_h, &mut d1);
-        toks.push(format!("{}/{}", res, v));
+    let Some((toks, d1)) = run_ops(&mut e, &t[1..], Some(&log)) else { return "bad-case".into() };
+    // the loader path: the same rules as GRL text through the real GrlReteLoader into a second engine, same calls
+    let mut e2 = IncrementalEngine::new();
+    let g = match GrlReteLoader::load_from_string(&grl.join("\n"), &mut e2) {
+        Err(err) => format!("G!{}", hex(&format!("{}", err))),
+        Ok(n) if n != grl.len() => format!("G!{}", hex(&format!("loaded {} of {} rules", n, grl.len()))),
+        Ok(_) => {
+            let Some((toks2, _)) = run_ops(&mut e2, &t[1..], None) else { return "bad-case".into() };
+            // first engine's tokens with the recorder log removed
+            let stripped: Vec<String> = toks.iter().map(|tk| match tk.split_once('/') {
+                Some((res, rest)) if res.starts_with('F') => format!("{}/{}", res.split('~').next().unwrap_or(res), rest),
+                _ => tk.clone(),
+            }).collect();
+            if toks2 == stripped { "G=".to_string() } else { format!("G {}", if toks2.is_empty() { "-".to_string() } else { toks2.join(" ") }) }
+        }
+    };
+    format!("D{} {} {}", if d1 { 1 } else { 0 }, if toks.is_empty() { "-".to_string() } else { toks.join(" ") }, g)
+}
+
+// the same exec loop as `rre_harness::main_with`, with fd 1 pointed at /dev/null while the cases run (the loader's action
+// closures and `process_action_results` print to stdout); observations go to a duplicate of the original fd 1
+extern "C" {
+    fn dup(fd: i32) -> i32;
+    fn dup2(a: i32, b: i32) -> i32;
+}
+fn exec_main() {
+    use std::io::{BufRead, Write};
+    use std::os::fd::{AsRawFd, FromRawFd};
+    let saved = unsafe { dup(1) };
+    let null = std::fs::OpenOptions::new().write(true).open("/dev/null").unwrap();
+    unsafe { dup2(null.as_raw_fd(), 1) };
+    let mut out = std::io::BufWriter::new(unsafe { std::fs::File::from_raw_fd(saved) });
+    std::panic::set_hook(Box::new(|_| {}));
+    let stdin = std::io::stdin();
+    for line in stdin.lock().lines() {
+        let line = line.unwrap();
+        let line = line.trim_end();
+        if line.is_empty() { continue; }
+        writeln!(out, "{}", exec_guarded(exec, line)).unwrap();
+        out.flush().unwrap(); // per case: if the process dies or hangs, check.py knows which case did it
     }
-    format!("D{} {}", if d1 { 1 } else { 0 }, if toks.is_empty() { "-".to_string() } else { toks.join(" ") })
+    out.flush().unwrap();
 }
 
 // ------------------------------------------------------------------------------------------------ generation
 fn gen_val(rng: &mut Rng) -> String {
-    match rng.below(10) {
-        0 => format!("b{}", rng.below(2)),
-        1 => format!("s{}", rng.below(2)),
+    match rng.below(20) {
+        0 | 1 => format!("b{}", rng.below(2)),
+        2 | 3 => format!("s{}", rng.below(2)),
         // floats: the same numbers as the integers (boundary of <=, >= across representations) and halves
-        2 | 3 => format!("h{}", *rng.pick(&[0i64, 2, 4, 6, 30, 36, 50, -8, 1, 37, -7])),
+        4..=7 => format!("h{}", *rng.pick(&[0i64, 2, 4, 6, 30, 36, 50, -8, 1, 37, -7])),
+        8 => "n".to_string(),
         _ => format!("i{}", *rng.pick(&[0i64, 1, 2, 3, 15, 18, 25, -4])),
+    }
+}
+/// values for the family "negated comparison": mostly NOT numbers (null, strings, booleans)
+fn gen_val_odd(rng: &mut Rng) -> String {
+    match rng.below(8) {
+        0 | 1 => "n".to_string(),
+        2 | 3 => format!("s{}", rng.below(2)),
+        4 => format!("b{}", rng.below(2)),
+        5 => format!("h{}", *rng.pick(&[1i64, 37, -7, 30])),
+        _ => format!("i{}", *rng.pick(&[0i64, 3, 15, 18, 25, -4])),
+    }
+}
+/// facts with many absent fields
+fn gen_data_sparse(rng: &mut Rng) -> String {
+    let mut items = Vec::new();
+    for f in 0..3 {
+        if rng.chance(3, 5) { items.push(format!("{}={}", f, gen_val_odd(rng))); }
+    }
+    if items.is_empty() { "-".into() } else { items.join(",") }
+}
+fn gen_alpha(rng: &mut Rng, ty: u64) -> String {
+    let op = *rng.pick(&["eq", "ne", "lt", "le", "gt", "ge"]);
+    let rhs = match rng.below(10) {
+        0 => format!("v{}_{}", ty, rng.below(3)),
+        1 | 2 => gen_val_odd(rng),
+        _ => format!("i{}", *rng.pick(&[0i64, 3, 5, 15, 18])),
+    };
+    format!("A.{}.{}.{}.{}", ty, rng.below(3), op, rhs)
+}
+/// a node in which `!` is applied directly to one comparison (what a loader could be tempted to fold into the complementary
+/// comparison), alone or inside a conjunction / disjunction / second negation
+fn gen_negcmp_node(rng: &mut Rng, ty: u64) -> String {
+    let neg = format!("!({})", gen_alpha(rng, ty));
+    match rng.below(10) {
+        0 => format!("&({},{})", neg, gen_alpha(rng, ty)),
+        1 => format!("+({},{})", gen_alpha(rng, ty), neg),
+        2 => format!("!({})", neg),
+        3 => format!("&({},!({}))", neg, gen_alpha(rng, ty)),
+        _ => neg,
     }
 }
 fn gen_node(rng: &mut Rng, ty: u64, depth: u32, allow_not: bool, ntypes: u64) -> String {
@@ -247,19 +392,25 @@ fn gen_data(rng: &mut Rng) -> String {
     if items.is_empty() { "-".into() } else { items.join(",") }
 }
 
-fn gen_case(rng: &mut Rng) -> String { gen_case_with(rng, false) }
+fn gen_case(rng: &mut Rng) -> String { gen_case_with(rng, false, false) }
 
 /// `neg` = family "negated rules on a multi-type store": 2–3 fact types, rules negated at the top, a fact of every type
 /// inserted first.  A negated condition is vacuously true on a fact of a foreign type (all its fields are missing): before
 /// fix-C06c the re-propagation inside `fire_all` matched such a rule against facts of the other types (F-C06c).
-fn gen_case_with(rng: &mut Rng, neg: bool) -> String {
+///
+/// `negcmp` = family "negated comparison on an absent / null / non-numeric field": every rule contains `!` applied directly to
+/// one comparison, the facts have many absent fields and values that are not numbers.  Such a comparison is false, so its
+/// negation is true and the rule has to fire — which `!(a > b)` rewritten as `a <= b` would not do.  Most of these rule sets
+/// are quiet (exactness clause), and every case runs through the GRL loader as well as through the directly built nodes.
+fn gen_case_with(rng: &mut Rng, neg: bool, negcmp: bool) -> String {
     let ntypes = if neg { rng.range(2, NTYPES) } else if rng.chance(1, 3) { 1 } else { rng.range(2, NTYPES) };
     let allow_not = true;
     let single = rng.chance(1, 2); // at most one live fact per type (deterministic histories)
     let nrules = rng.range(1, 3) as usize;
     let mut prios: Vec<i64> = vec![-5, 0, 1, 7, 20];
     rng.shuffle(&mut prios);
-    let quiet = rng.chance(1, 3); // all actions no-ops and all rules no-loop: the exactness clause applies
+    let quiet = rng.chance(1, 3) || negcmp && rng.chance(1, 2); // all actions no-ops and all rules no-loop: the exactness clause applies
+    let gen_data = |rng: &mut Rng| if negcmp { gen_data_sparse(rng) } else { gen_data(rng) };
     let mut rules = Vec::new();
     for i in 0..nrules {
         let ty = rng.below(ntypes);
@@ -274,6 +425,7 @@ fn gen_case_with(rng: &mut Rng, neg: bool) -> String {
         let nl = if quiet || !rng.chance(1, 8) { 1 } else { 0 };
         let mut node = gen_node(rng, ty, 2, allow_not, ntypes);
         if neg && (i == 0 || rng.chance(1, 2)) { node = format!("!({})", gen_node(rng, ty, 1, allow_not, ntypes)); }
+        if negcmp { node = gen_negcmp_node(rng, ty); }
         rules.push(format!("{}:{}:{}:{}:{}", ty, prios[i], nl, node, action));
     }
     let nops = rng.range(2, 12) as usize;
@@ -350,10 +502,89 @@ fn gen_stale_case(rng: &mut Rng) -> String {
     format!("{} {}", rules.join("/"), ops.join(" "))
 }
 
+/// family "many rules, handles of two digits" (seeded change C06-4: an agenda that identifies a queued (rule, fact) pair by the
+/// concatenation `rule_name + handle` confuses R1 / handle 12 with R11 / handle 2).  11..13 quiet no-loop rules
+/// `R<k>: T0.f0 == 100 + k` (names that differ in trailing digits only), 11..24 facts of one type.  Two designated facts: handle
+/// `c` satisfies R1b (b = 1 or 2), handle `bc` satisfies R1, so that name + handle read the same.  One of the two becomes
+/// true first (its activation is queued first), then that fact is retracted or updated away before fire_all: the other rule
+/// is satisfied by a live fact that was inserted / updated since the last fire_all and must fire (exactness clause).  A few
+/// other facts satisfy other rules, with any salience, so that firings happen before and after the stale activation is popped.
+fn gen_collide_case(rng: &mut Rng) -> String {
+    let nrules = *rng.pick(&[11u64, 12, 12, 13, 13, 13]);
+    let mut rules = Vec::new();
+    for k in 0..nrules {
+        rules.push(format!("0:{}:1:A.0.0.eq.i{}:-", *rng.pick(&[0i64, 0, 0, 1, 7, -5]), 100 + k));
+    }
+    let b = if nrules >= 13 && rng.chance(1, 2) { 2 } else { 1 }; // the long name is R1b
+    let c = rng.range(1, 9);
+    let (h_short, h_long) = (c, 10 * b + c);                      // R1b + "c" == R1 + "bc"
+    let nfacts = h_long + rng.below(3);
+    let long_rule = 10 + b;
+    let first_long = rng.chance(1, 2);                            // which of the two activations is queued first
+    let mut ops = Vec::new();
+    let mut noise: Vec<u64> = Vec::new();
+    for h in 1..=nfacts {
+        let v = if h == h_long { 101 }
+            else if h == h_short { if first_long { 100 + long_rule } else { 0 } }
+            else if rng.chance(1, 6) { let k = *rng.pick(&[0u64, 2, 3, 5, 9, 10]); noise.push(h); 100 + k }
+            else { rng.below(3) };
+        ops.push(format!("I0:0=i{}", v));
+    }
+    if !first_long { ops.push(format!("U{}:0=i{}", h_short, 100 + long_rule)); }
+    // the pair queued first becomes stale
+    let stale = if first_long { h_short } else { h_long };
+    if rng.chance(1, 2) { ops.push(format!("X{}", stale)); } else { ops.push(format!("U{}:0=i{}", stale, rng.below(3))); }
+    if rng.chance(1, 4) && !noise.is_empty() { ops.push(format!("X{}", *rng.pick(&noise))); }
+    ops.push("F".into());
+    if rng.chance(1, 3) { ops.push("Z".into()); ops.push(format!("U{}:0=i{}", if first_long { h_long } else { h_short }, 100 + rng.below(nrules))); ops.push("F".into()); }
+    format!("{} {}", rules.join("/"), ops.join(" "))
+}
+
+/// family "rules of another fact type are re-activated by the re-propagation after a firing" (seeded change C06-6): quiet
+/// no-loop rules over 2..3 fact types, a fact of every type, fire_all, reset — and then only ONE type is touched before the next
+/// fire_all.  insert / update propagate to the rules of the touched type only; the rules of the other types have no pending
+/// activation after the reset and come back through the global `propagate_changes` that follows the first firing: every rule
+/// that has not fired since the reset and is satisfied by a live fact must fire (clause quiescent_fire_all_exact_after_firing).
+fn gen_repropagate_case(rng: &mut Rng) -> String {
+    let ntypes = rng.range(2, NTYPES);
+    let mut prios: Vec<i64> = vec![-5, 0, 1, 7, 20, 3];
+    rng.shuffle(&mut prios);
+    let nrules = rng.range(ntypes, ntypes + 1) as usize;
+    let mut rules = Vec::new();
+    for i in 0..nrules {
+        let ty = if (i as u64) < ntypes { i as u64 } else { rng.below(ntypes) };
+        // mostly satisfied by the facts below (f0 in 15..25)
+        let node = match rng.below(5) {
+            0 => gen_node(rng, ty, 1, true, ntypes),
+            1 => format!("!(A.{}.1.gt.i3)", ty),
+            2 => format!("A.{}.0.ge.i{}", ty, *rng.pick(&[15i64, 18])),
+            _ => format!("A.{}.0.gt.i{}", ty, *rng.pick(&[3i64, 15])),
+        };
+        rules.push(format!("{}:{}:1:{}:-", ty, prios[i], node));
+    }
+    let mut ops = Vec::new();
+    for ty in 0..ntypes { ops.push(format!("I{}:0=i{}", ty, *rng.pick(&[18i64, 25, 25, 2]))); }
+    ops.push("F".into());
+    for _ in 0..rng.range(1, 2) {
+        if rng.chance(5, 6) { ops.push("Z".into()); }
+        let ty = rng.below(ntypes);
+        match rng.below(3) {
+            0 => ops.push(format!("I{}:0=i{}", ty, *rng.pick(&[18i64, 25, 2]))),               // a second fact of the type (D0)
+            _ => ops.push(format!("U{}:0=i{}{}", ty + 1, *rng.pick(&[18i64, 25, 25, 2]), if rng.chance(1, 3) { ",1=i1" } else { "" })),
+        }
+        if rng.chance(1, 5) { ops.push(format!("X{}", rng.range(1, ntypes))); }
+        ops.push("F".into());
+    }
+    format!("{} {}", rules.join("/"), ops.join(" "))
+}
+
 fn gen(rng: &mut Rng, n: usize, _tier: &str) -> Vec<String> {
     (0..n).map(|i| match i % 50 {
+        27 | 47 => gen_repropagate_case(rng),
         7 => gen_stale_case(rng),
-        3 | 13 | 23 | 33 | 43 => gen_case_with(rng, true),
+        17 | 37 => gen_collide_case(rng),
+        3 | 13 | 23 | 33 | 43 => gen_case_with(rng, true, false),
+        5 | 15 | 25 | 35 | 45 => gen_case_with(rng, false, true),
         _ => gen_case(rng),
     }).collect()
 }
@@ -372,5 +603,5 @@ fn shrink(case: &str) -> Vec<String> {
 }
 
 fn main() {
-    main_with(Prop { gen, exec, shrink });
+    if std::env::args().nth(1).as_deref() == Some("exec") { exec_main(); } else { main_with(Prop { gen, exec, shrink }); }
 }
